@@ -224,7 +224,7 @@ func isStateEffect(cl ssa.CallInstruction) bool {
 	switch {
 	case hasAnyPrefix(short, "Set", "Delete", "Append", "Remove", "Consume", "Increment", "Handle", "Queue", "Send", "Stop",
 		"Jail", "Slash", "Tombstone", "Update", "Clear", "Prune", "OptIn", "OptOut", "Assign", "Create", "Launch", "Allocate",
-		"Unjail", "Mint", "Burn", "Delegate", "Undelegate", "FundCommunityPool", "Write", "ChanCloseInit", "Initialize", "Replenish", "Apply", "Accumulate", "Distribute", "Transfer"):
+		"Unjail", "Mint", "Burn", "Change", "Delegate", "Undelegate", "FundCommunityPool", "Write", "ChanCloseInit", "Initialize", "Replenish", "Apply", "Accumulate", "Distribute", "Transfer"):
 		// event emission and logging are not state
 		if hasAnyPrefix(short, "SetGovKeeper", "SetHooks") {
 			return false
